@@ -146,7 +146,7 @@ def recount(ctx, R, prog):
     cfg = f.cfg
     # counter: a local initialised to 1 that is incremented in the loop that walks mi_block_next
     cnts = [dd["d"] for _, dd in rl.local_decl(f, lambda dd: "init" in dd and f.cv(dd["init"]) == 1 and dd.get("w", 0) > 0)]
-    incs = [(x, d) for d in cnts for x, rhs, op in f.var_defs(d) if op == "++"]
+    incs = [(x, d) for d in cnts for x, kind, opnd in f.var_updates(d) if kind == "add" and opnd == 1]
     tails = [dd["d"] for _, dd in rl.local_decl(f, lambda dd: "init" in dd and rl.var_of(f, dd["init"]) is not None and "mi_block_t" in dd["t"])]
     ok = len(incs) == 1 and all(cfg.in_loop(x) for x, d in incs)
     ctx.check(R, ok, f.where(), "a counter starting at 1 is incremented once per walked block", key=R + ":recount:counter")
@@ -157,7 +157,7 @@ def recount(ctx, R, prog):
     adv = [a for t in tails for a, rhs, op in f.var_defs(t) if op == "=" and cfg.in_loop(a)]
     ok = len(adv) == 1 and cfg.must_pass([cfg.after(inc)], [cfg.pt(inc)] + cfg.exit_points(), lambda e: e in adv) is None
     ctx.check(R, ok, f.where(inc), "each increment is paired with one advance of the tail", key=R + ":recount:pair")
-    subs = [(a, rhs) for a, l, rhs, op in f.field_stores("used") if op == "-="]
+    subs = [(a, opnd) for a, l, kind, opnd in f.field_updates("used") if kind == "sub" and opnd != 1]
     ok = len(subs) == 1 and rl.var_of(f, subs[0][1]) == cd
     ctx.check(R, ok, f.where(subs[0][0]) if subs else f.where(), "page->used -= count (the walked count, not count±k)", key=R + ":recount:sub")
     heads = [a for a, l, rhs, op in f.field_stores("local_free") if op == "="]
@@ -311,17 +311,11 @@ def absorb_covers_all_queues(ctx, R, prog):
     f = prog.fn("mi_heap_absorb")
     full = prog.const("MI_BIN_FULL")
     ok = False
-    for l in f.all(kind="ForStmt"):
-        n = f.nodes[l]
-        cond, init = n.get("cond"), n.get("init")
-        if cond is None or init is None or f.nodes[init]["k"] != "DeclStmt":
+    for L in rl.counted_loops(f):
+        if L["first"] is None or f.cv(L["first"]) != 0 or f.cv(L["bound"]) is None:
             continue
-        ivs = [dd for dd in f.nodes[init]["decls"] if "init" in dd and f.cv(dd["init"]) == 0]
-        if len(ivs) != 1:
-            continue
-        c = rl.oriented(f, cond, True, rl.is_local(f, ivs[0]["d"]), rl.is_const(f))
-        if c and ((c[0] == "<=" and f.cv(c[2]) == full) or (c[0] == "<" and f.cv(c[2]) == full + 1)):
-            if any(rl.is_call(f, x, "_mi_page_queue_append") for x in f.walk(n["body"])) and f.mentions_decl(n["body"], ivs[0]["d"]):
+        if (L["op"] == "<=" and f.cv(L["bound"]) == full) or (L["op"] == "<" and f.cv(L["bound"]) == full + 1):
+            if any(rl.is_call(f, x, "_mi_page_queue_append") for x in f.walk(L["body"])) and f.mentions_decl(L["body"], L["var"]):
                 ok = True
     ctx.check(R, ok, f.where(), "the append loop covers bins 0..MI_BIN_FULL (=%d) inclusive" % full, key=R + ":bound")
 
